@@ -57,6 +57,10 @@ def render(run) -> str:
         o.append('HQUERY 1')
     if run.get('refetch'):
         o.append('REFETCH 1')
+    if run.get('setuporder'):
+        o.append('SETUPORDER 1')
+    if run.get('reentryfc'):
+        o.append(f"REENTRYFC {run['reentryfc']}")
     if run.get('slowlog'):
         o.append(f"SLOWLOG {run['slowlog']}")
     for t in run['tasks']:
@@ -319,6 +323,18 @@ def gen_c10_runs(rng: Rng, mb, n):
                     'kind': 'one-unbound', 'unbinds': [[side, ev, cl]]})
         vary_env(Rng(rng.state, 'unbound'), run)
         runs.append(run)
+    if mb.mc and n_clients > 0:
+        # another legal order of the set-up steps (bind every port as soon as it has been obtained), alone and with a log
+        # sink that calls FinalConstruct itself on its k-th message - i.e. while some client is being registered and
+        # everything obtained so far is bound.  If that FinalConstruct succeeds, the client being registered is too late.
+        run = new_run('setup-interleaved', origin)
+        run.update({'clients': n_clients, 'client_names': names, 'parent': 1, 'probes': 1, 'policy': POL_DEFAULT, 'kind': 'all-bound', 'setuporder': 1})
+        runs.append(run)
+        for k in sorted({1, 2, 2 * n_clients - 1, 2 * n_clients, rng.between(1, 2 * n_clients + 1)}):
+            run = new_run(f'setup-sink-finalconstructs-{k}', origin)
+            run.update({'clients': n_clients, 'client_names': names, 'parent': 1, 'probes': 1, 'policy': POL_DEFAULT,
+                        'kind': 'reentrant-final-construct', 'setuporder': 1, 'reentryfc': k})
+            runs.append(run)
     if mb.mc and mb.mc['out_events'] and n_clients > 0:
         # fault kind "user callback re-enters the shell": the user's log sink registers a client of its own ('monitor', never
         # bound) when it receives its k-th message - during the registration of the others, or whenever else the shell logs
